@@ -16,6 +16,7 @@ def run(ctx: Ctx, chk) -> None:
     chk.assume("A1", "A5", "A6")
     chk.run_rule(write_then_forget, ctx)
     chk.run_rule(error_propagates, ctx)
+    chk.run_rule(tables.write_sync_rule, ctx)
     chk.run_rule(flush_total, ctx)
 
 
